@@ -250,6 +250,19 @@ DRV_CMD(fw_open, "fw.open") {
   return std::string(ok ? "ok " : "refused ") + after;
 }
 
+// fw.opendir <flags 0..15> <bytes> : like fw.open with the target in a directory that does not exist yet; reports whether the
+// directory exists afterwards and the content of the file
+DRV_CMD(fw_opendir, "fw.opendir") {
+  unsigned flags = static_cast<unsigned>(toU64(need(a,0))); std::string bytes = hexDecode(need(a,1));
+  std::string dir = freshDir() + "/sub"; std::string path = dir + "/out.bin";
+  bool ok = true;
+  try {
+    FileWriter w(path, static_cast<FileWriter::OpenMode>(flags));
+    w.Write(bytes.data(), bytes.size());
+  } catch (const std::exception&) { ok = false; }
+  return std::string(ok ? "ok " : "refused ") + (exists(dir) ? "dir " : "nodir ") + (exists(path) ? hexEncode(readFile(path)) : "absent");
+}
+
 // fw.seq <flags 0..15> <existing content hex | absent> <ops> : FileWriter(path, flags), then a history of writes and seeks
 // (Position() after every operation), close; content on disk afterwards
 DRV_CMD(fw_seq, "fw.seq") {
